@@ -842,6 +842,91 @@ def model_names(info, items):
     return out
 
 
+def check_stacks_independent(ctx):
+    """several stacks assembled in one process by the default helpers with the SAME selection: each stack owns its
+    layers; an event emitted in the first one is seen by the first one's layers only, also after the later ones were
+    built (every flag combination is otherwise only looked at right after its own construction)"""
+    from yowsup.stacks import YowStackBuilder, YowStack
+    from yowsup.layers import YowLayer, YowLayerEvent, YowParallelLayer
+    n = 0
+
+    def mk_top():
+        seen = []
+
+        class RecTop(YowLayer):
+            def onEvent(self, ev):
+                seen.append(ev.getName())
+                return False
+        return RecTop, seen
+
+    def instances(st):
+        out = []
+        for i in range(64):
+            try:
+                l = st.getLayer(i)
+            except IndexError:
+                break
+            out.append(l)
+            if isinstance(l, YowParallelLayer):
+                out.extend(l.sublayers)
+        return out
+
+    builders = {
+        "getDefaultStack": lambda top, fl: YowStackBuilder.getDefaultStack(layer=top, **fl),
+        "getDefaultLayers+YowStack": lambda top, fl: YowStack(
+            YowStackBuilder.getDefaultLayers(**{k: v for k, v in fl.items() if k != "axolotl"}) + (top,), reversed=False),
+        "builder.pushDefaultLayers": lambda top, fl: YowStackBuilder().pushDefaultLayers().push(top).build(),
+    }
+    selections = [dict(axolotl=True, groups=True, media=True, privacy=True, profiles=True),
+                  dict(axolotl=False, groups=True, media=False, privacy=True, profiles=False)]
+    for how, build in sorted(builders.items()):
+        for fl in selections:
+            if how == "builder.pushDefaultLayers" and fl is not selections[0]:
+                continue
+            n += 1
+            case = {"helper": how, "flags": fl, "scenario": "two stacks with the same selection, the first one used afterwards"}
+            try:
+                topA, seenA = mk_top()
+                A = build(topA, fl)
+                topB, seenB = mk_top()
+                B = build(topB, fl)
+                ia, ib = instances(A), instances(B)
+                shared = sorted(set(type(x).__name__ for x in ia if any(x is y for y in ib)))
+                foreign = sorted(set(type(x).__name__ for x in ia if x.getStack() is not A))
+                bottomA = A.getLayer(0)
+                below = []
+                bottomA.onEvent = lambda ev, _b=below: _b.append(ev.getName()) or False
+                bottomA.emitEvent(YowLayerEvent("c18.independent.up"))
+                A.getLayer(len([1 for _ in range(64) if _ < 64 and _layer_exists(A, _)]) - 1).broadcastEvent(
+                    YowLayerEvent("c18.independent.down"))
+                problems = []
+                if shared:
+                    problems.append("layer instances shared by the two stacks: %s" % shared)
+                if foreign:
+                    problems.append("layers of the first stack that say they belong to another stack: %s" % foreign)
+                if seenA.count("c18.independent.up") != 1:
+                    problems.append("event emitted at the first stack's bottom seen %d times by its own top layer"
+                                    % seenA.count("c18.independent.up"))
+                if "c18.independent.up" in seenB or "c18.independent.down" in seenB:
+                    problems.append("the second stack's top layer saw the first stack's events: %s" % seenB)
+                if below.count("c18.independent.down") != 1:
+                    problems.append("event broadcast from the first stack's top reached its bottom layer %d times"
+                                    % below.count("c18.independent.down"))
+                if problems:
+                    ctx.violation("oracle:stacks_independent", dict(case, problems=problems))
+            except Exception as e:
+                ctx.violation("oracle:stacks_independent", dict(case, problems=["raised %s: %s" % (type(e).__name__, e)]))
+    return n
+
+
+def _layer_exists(stack, i):
+    try:
+        stack.getLayer(i)
+        return True
+    except IndexError:
+        return False
+
+
 def check_helpers(ctx, model, info):
     """all 32 flag combinations x top layer or not x three call styles, against the real helpers"""
     from yowsup.stacks import YowStackBuilder, YowStack
@@ -955,6 +1040,7 @@ def check_helpers(ctx, model, info):
             if mg != ig:
                 ctx.violation("correspondence:C18.init_consts", {"constant": name, "model": mg, "impl": ig},
                               found_input=False)
+    n_eval += check_stacks_independent(ctx)
     try:
         st = YowStack(stacks_pkg.YOWSUP_FULL_STACK)
         got = walk_stack(st)
@@ -1158,6 +1244,16 @@ def replay(ctx, data):
     rc = 0
     if "helper_calls" in case:
         return stack_eval.replay_history(REPO, case, "C18", ctx.scratch)
+    if "scenario" in case and "problems" in case:
+        before = len(ctx.violations)
+        check_stacks_independent(ctx)
+        for v in ctx.violations[before:]:
+            print("still fails:", json.dumps(v.get("data", v), default=str)[:600])
+        if len(ctx.violations) > before:
+            print("VIOLATION property=C18 replay=(replayed)")
+            return 1
+        print("every stack owns its layers now")
+        return 0
     if "helper" in case and "syntactic" in case:
         _text, info = c18_layers.analyse(scratch=ctx.scratch)
         print("translator path now:", info["path"])
